@@ -2,6 +2,7 @@ package main
 
 import (
 	"fmt"
+	"go/token"
 	"go/types"
 	"strings"
 
@@ -127,6 +128,66 @@ func rulesC13(c *Ctx) {
 				cbWhy = "the unlock callback is not the Unlock method value of the scope's own mutex"
 			}
 		})
+		// the callback may be produced by a private helper of the same receiver that locks and
+		// returns the Unlock method value (acquire() func())
+		if !okCB {
+			for _, hc := range Calls(f) {
+				h := hc.Static
+				if h == nil || h.Pkg != f.Pkg || h.Blocks == nil || len(hc.Common.Args) == 0 || hc.Common.Args[0] != ssa.Value(f.Params[0]) || len(h.Params) == 0 {
+					continue
+				}
+				hv := hc.Value()
+				if hv == nil {
+					continue
+				}
+				// every return of h is the Unlock method value of a mutex of its receiver
+				good, kind := true, ""
+				for _, r := range returnsOf(h) {
+					if len(r.Results) != 1 {
+						good = false
+						continue
+					}
+					mc, ok := unwrapChange(resolve(r.Results[0])).(*ssa.MakeClosure)
+					if !ok || len(mc.Bindings) != 1 {
+						good = false
+						continue
+					}
+					fn, ok := mc.Fn.(*ssa.Function)
+					if !ok || fn.Object() == nil {
+						good = false
+						continue
+					}
+					q := qualObj(fn.Object().(*types.Func))
+					translated := strings.Replace(keyP(mc.Bindings[0]), "param:"+h.Params[0].Name(), "param:"+f.Params[0].Name(), 1)
+					if translated != want {
+						good = false
+					}
+					kind = q
+				}
+				if !good || kind == "" {
+					continue
+				}
+				reaches := storesUnlock(f, hv)
+				for _, ci := range Calls(f) {
+					if ci.Static != nil && ci.Static.Pkg == f.Pkg {
+						for ai, a := range ci.Common.Args {
+							if (unwrapChange(resolve(a)) == hv || resolve(a) == hv) && ai < len(ci.Static.Params) && storesUnlock(ci.Static, ci.Static.Params[ai]) {
+								reaches = true
+							}
+						}
+					}
+				}
+				if !reaches {
+					continue
+				}
+				switch {
+				case kind == "sync.(RWMutex).Unlock" || kind == "sync.(Mutex).Unlock":
+					okCB = true
+				case strings.HasSuffix(kind, "RUnlock"):
+					cbWhy = "the callback releases a READ lock"
+				}
+			}
+		}
 		why := ""
 		if !okHeld {
 			why = "LockData does not return holding the scope's mutex in write mode on every path (held: " + fmtLockset(sum.HeldAtExit) + ")"
@@ -213,57 +274,7 @@ func rulesC13(c *Ctx) {
 			continue
 		}
 		n4++
-		facts := factsFor(vf)
-		key := vf.Params[1]
-		var look *ssa.Lookup
-		eachInstr(vf, func(_ *ssa.BasicBlock, _ int, in ssa.Instruction) {
-			if l, ok := in.(*ssa.Lookup); ok && l.CommaOk && l.Index == ssa.Value(key) {
-				if n, _ := fieldLoadName(l.X); n == "data" {
-					look = l
-				}
-			}
-		})
-		ok := look != nil
-		why := "no comma-ok lookup of the key in the scope's own map"
-		if ok {
-			okv := resultN(look, 1)
-			own := resultN(look, 0)
-			for _, r := range returnsOf(vf) {
-				v := resolve(r.Results[0])
-				switch {
-				case len(own) > 0 && v == own[0]:
-					hit := false
-					for _, o := range okv {
-						if facts.KnownBool(r.Block(), o, true) {
-							hit = true
-						}
-					}
-					if !hit {
-						ok, why = false, "the own entry is returned without the hit being established"
-					}
-				case isNilConst(v):
-					// locker without parent
-				default:
-					call, isCall := v.(*ssa.Call)
-					if !isCall || call.Call.Method == nil || call.Call.Method.Name() != "Value" || len(call.Call.Args) != 1 || call.Call.Args[0] != ssa.Value(key) {
-						ok, why = false, "a return is neither the own entry nor parent.Value(key)"
-						continue
-					}
-					if n, _ := fieldLoadName(call.Call.Value); n != "parent" {
-						ok, why = false, "the fallback does not ask the parent"
-					}
-					miss := false
-					for _, o := range okv {
-						if facts.KnownBool(call.Block(), o, false) {
-							miss = true
-						}
-					}
-					if !miss {
-						ok, why = false, "the parent is asked although the own entry was not established missing"
-					}
-				}
-			}
-		}
+		ok, why := valueOverlays(vf)
 		c.Check(ok, "R4", tn+".Value overlay", vf.Pos(), "own entry on the hit edge, parent.Value(key) on the miss edge", why+" — the child does not overlay the parent")
 	}
 	// read-type methods never write
@@ -370,5 +381,274 @@ func ruleGetOrCreate(c *Ctx, fns []*ssa.Function) {
 			}
 		}
 	}
-	c.Floor("R5", n, 3)
+	c.Floor("R5", n, 1)
+}
+
+// ownLookup: where a function reads the scope's own entry for a key.
+type ownLookup struct {
+	vals []ssa.Value // values that are the own entry
+	oks  []ssa.Value // booleans that are true iff the own entry exists
+}
+
+func isOwnMap(v ssa.Value, recv ssa.Value) bool {
+	u, ok := v.(*ssa.UnOp)
+	if !ok {
+		return false
+	}
+	fa, ok := u.X.(*ssa.FieldAddr)
+	if !ok || fa.X != recv {
+		return false
+	}
+	_, isMap := u.Type().Underlying().(*types.Map)
+	return isMap
+}
+
+// ownLookupsIn: lookups of `key` in a map field of the receiver, directly or
+// through a private helper of the same type that returns (entry, present) or a
+// small struct holding the two.
+func ownLookupsIn(f *ssa.Function, key ssa.Value, depth int) ownLookup {
+	var out ownLookup
+	if len(f.Params) == 0 {
+		return out
+	}
+	recv := ssa.Value(f.Params[0])
+	eachInstr(f, func(_ *ssa.BasicBlock, _ int, in ssa.Instruction) {
+		switch x := in.(type) {
+		case *ssa.Lookup:
+			if x.Index != key || !isOwnMap(x.X, recv) {
+				return
+			}
+			if x.CommaOk {
+				out.vals = append(out.vals, resultN(x, 0)...)
+				out.oks = append(out.oks, resultN(x, 1)...)
+			} else {
+				out.vals = append(out.vals, x)
+			}
+		case *ssa.Call:
+			h := x.Call.StaticCallee()
+			if h == nil || h.Pkg != f.Pkg || h.Blocks == nil || depth >= 2 || len(h.Params) < 2 || len(x.Call.Args) < 2 || x.Call.Args[0] != recv {
+				return
+			}
+			ki := -1
+			for i, a := range x.Call.Args {
+				if a == key {
+					ki = i
+				}
+			}
+			if ki < 0 {
+				return
+			}
+			inner := ownLookupsIn(h, h.Params[ki], depth+1)
+			if len(inner.vals) == 0 {
+				return
+			}
+			isVal := func(v ssa.Value) bool {
+				for _, w := range inner.vals {
+					if resolve(v) == w {
+						return true
+					}
+				}
+				return false
+			}
+			isOk := func(v ssa.Value) bool {
+				for _, w := range inner.oks {
+					if resolve(v) == w {
+						return true
+					}
+				}
+				return false
+			}
+			res := h.Signature.Results()
+			switch {
+			case res.Len() == 2:
+				good := true
+				for _, r := range returnsOf(h) {
+					if !isVal(r.Results[0]) || !isOk(r.Results[1]) {
+						good = false
+					}
+				}
+				if good {
+					out.vals = append(out.vals, resultN(x, 0)...)
+					out.oks = append(out.oks, resultN(x, 1)...)
+				}
+			case res.Len() == 1:
+				st, isStruct := res.At(0).Type().Underlying().(*types.Struct)
+				if !isStruct {
+					// a helper returning the entry only
+					good := true
+					for _, r := range returnsOf(h) {
+						if !isVal(r.Results[0]) {
+							good = false
+						}
+					}
+					if good {
+						out.vals = append(out.vals, x)
+					}
+					return
+				}
+				// which field holds the entry, which the presence flag
+				vi, oi := -1, -1
+				eachInstr(h, func(_ *ssa.BasicBlock, _ int, in2 ssa.Instruction) {
+					if s2, ok := in2.(*ssa.Store); ok {
+						if fa, ok := s2.Addr.(*ssa.FieldAddr); ok && fa.Field < st.NumFields() {
+							if isVal(s2.Val) {
+								vi = fa.Field
+							}
+							if isOk(s2.Val) {
+								oi = fa.Field
+							}
+						}
+					}
+				})
+				if vi < 0 || oi < 0 || x.Referrers() == nil {
+					return
+				}
+				for _, r := range *x.Referrers() {
+					if fld, ok := r.(*ssa.Field); ok {
+						if fld.Field == vi {
+							out.vals = append(out.vals, fld)
+						}
+						if fld.Field == oi {
+							out.oks = append(out.oks, fld)
+						}
+					}
+				}
+				// the result may be spilled to a local first
+				for _, r := range *x.Referrers() {
+					if s3, ok := r.(*ssa.Store); ok {
+						if a, ok := s3.Addr.(*ssa.Alloc); ok {
+							for _, ar := range *a.Referrers() {
+								if fa, ok := ar.(*ssa.FieldAddr); ok {
+									for _, lr := range *fa.Referrers() {
+										if ld, ok := lr.(*ssa.UnOp); ok {
+											if fa.Field == vi {
+												out.vals = append(out.vals, ld)
+											}
+											if fa.Field == oi {
+												out.oks = append(out.oks, ld)
+											}
+										}
+									}
+								}
+							}
+						}
+					}
+				}
+			}
+		}
+	})
+	return out
+}
+
+// valueOverlays: every return of Value is the own entry where it is known to
+// exist (or there is no parent), nil, or parent.Value(key) where the own entry is
+// known to be missing (its presence flag is false, or the own map is empty).
+func valueOverlays(vf *ssa.Function) (bool, string) {
+	if len(vf.Params) < 2 {
+		return false, "unexpected signature"
+	}
+	facts := factsFor(vf)
+	key := ssa.Value(vf.Params[1])
+	recv := ssa.Value(vf.Params[0])
+	ol := ownLookupsIn(vf, key, 0)
+	if len(ol.vals) == 0 {
+		return false, "no lookup of the key in the scope's own map"
+	}
+	isVal := func(v ssa.Value) bool {
+		for _, w := range ol.vals {
+			if v == w || resolve(v) == w {
+				return true
+			}
+		}
+		return false
+	}
+	onAll := func(b *ssa.BasicBlock, pred func(fs factSet) bool) bool { return facts.HoldsOnAllEdges(b, pred) }
+	known := func(fs factSet, want bool) bool {
+		for _, o := range ol.oks {
+			ro := resolve(o)
+			for k := range fs {
+				if (k.v == o || resolve(k.v) == ro || sameValue(resolve(k.v), ro)) && k.pol == want {
+					return true
+				}
+			}
+		}
+		return false
+	}
+	ownEmpty := func(fs factSet) bool {
+		for k := range fs {
+			bo, ok := k.v.(*ssa.BinOp)
+			if !ok {
+				continue
+			}
+			if lenZeroField(bo, k.pol) != "" {
+				if lc, ok := bo.X.(*ssa.Call); ok && len(lc.Call.Args) == 1 && isOwnMap(lc.Call.Args[0], recv) {
+					return true
+				}
+			}
+		}
+		return false
+	}
+	parentNil := func(fs factSet) bool {
+		for k := range fs {
+			bo, ok := k.v.(*ssa.BinOp)
+			if !ok || (bo.Op != token.EQL && bo.Op != token.NEQ) {
+				continue
+			}
+			other := bo.X
+			if isNilConst(bo.X) {
+				other = bo.Y
+			} else if !isNilConst(bo.Y) {
+				continue
+			}
+			if n, _ := fieldLoadName(other); n == "parent" && ((bo.Op == token.EQL) == k.pol) {
+				return true
+			}
+		}
+		return false
+	}
+	ok, why := true, ""
+	for _, r := range returnsOf(vf) {
+		v := resolve(r.Results[0])
+		alts := []struct {
+			v  ssa.Value
+			fs func(pred func(fs factSet) bool) bool
+		}{}
+		if p, isPhi := v.(*ssa.Phi); isPhi {
+			for i, e := range p.Edges {
+				pb, sb := p.Block().Preds[i], p.Block()
+				alts = append(alts, struct {
+					v  ssa.Value
+					fs func(pred func(fs factSet) bool) bool
+				}{resolve(e), func(pred func(fs factSet) bool) bool { return pred(factsOnEdge(facts, pb, sb)) }})
+			}
+		} else {
+			b := r.Block()
+			alts = append(alts, struct {
+				v  ssa.Value
+				fs func(pred func(fs factSet) bool) bool
+			}{v, func(pred func(fs factSet) bool) bool { return onAll(b, pred) }})
+		}
+		for _, a := range alts {
+			switch {
+			case isVal(a.v):
+				if !a.fs(func(fs factSet) bool { return known(fs, true) || parentNil(fs) }) {
+					ok, why = false, "the own entry is returned without the hit being established"
+				}
+			case isNilConst(a.v):
+			default:
+				call, isCall := a.v.(*ssa.Call)
+				if !isCall || call.Call.Method == nil || call.Call.Method.Name() != "Value" || len(call.Call.Args) != 1 || call.Call.Args[0] != key {
+					ok, why = false, "a return is neither the own entry nor parent.Value(key)"
+					continue
+				}
+				if n, _ := fieldLoadName(call.Call.Value); n != "parent" {
+					ok, why = false, "the fallback does not ask the parent"
+				}
+				if !facts.HoldsOnAllEdges(call.Block(), func(fs factSet) bool { return known(fs, false) || ownEmpty(fs) }) {
+					ok, why = false, "the parent is asked although the own entry was not established missing"
+				}
+			}
+		}
+	}
+	return ok, why
 }
